@@ -585,3 +585,134 @@ pub fn float_pi(count: u64, seed: u64) {
         );
     }
 }
+
+/// C16 on float segments in ROBUST configurations far outside the integer domain (judged exactly by
+/// TracePIExact.tla on the bit patterns): general crossings, needles crossing at angles down to 2^-30,
+/// exact T-touches, common end points, end points on the other segment's line beyond it, clearly
+/// disjoint pairs; integer-valued coordinates up to 2^30 (f32: 2^20) in random power-of-two frames.
+/// The recorder classifies nothing: it writes the arguments and what the step did.
+pub fn float_pi_exact<F: Fl>(count: u64, seed: u64) {
+    let mut rng = Rng::new(seed);
+    let f32_ = F::NAME == "f32";
+    for id in 1..=count {
+        let mode = rng.below(8);
+        let r = |rng: &mut Rng, lo: i64, hi: i64| rng.range(lo, hi) as f64;
+        // integer-valued points (exactly representable), later scaled by a power of two
+        let (mut a1, mut a2, mut b1, mut b2): ((f64, f64), (f64, f64), (f64, f64), (f64, f64));
+        match mode {
+            0 | 1 => {
+                // needles: two long segments a small offset apart, crossing (or not) at a tiny angle
+                let k = if f32_ { rng.range(8, 19) } else { rng.range(14, 30) };
+                let l = 2f64.powi(k as i32);
+                let (x0, y0) = (r(&mut rng, -50, 50), r(&mut rng, -50, 50));
+                let (da, h, db) = (r(&mut rng, -4, 4), r(&mut rng, 1, 6), r(&mut rng, -2, 12));
+                let (e1, e2) = (r(&mut rng, -3, 3), r(&mut rng, -3, 3));
+                a1 = (x0, y0);
+                a2 = (x0 + l, y0 + da);
+                b1 = (x0 + e1, y0 + h);
+                b2 = (x0 + l + e2, y0 + h - db);
+            }
+            2 => {
+                // exact T: b starts at the midpoint of a
+                a1 = (2.0 * r(&mut rng, -500, 500), 2.0 * r(&mut rng, -500, 500));
+                a2 = (a1.0 + 2.0 * r(&mut rng, 1, 400), a1.1 + 2.0 * r(&mut rng, -400, 400));
+                b1 = ((a1.0 + a2.0) / 2.0, (a1.1 + a2.1) / 2.0);
+                b2 = (b1.0 + r(&mut rng, -300, 300), b1.1 + r(&mut rng, -300, 300));
+            }
+            3 => {
+                // a common end point
+                a1 = (r(&mut rng, -500, 500), r(&mut rng, -500, 500));
+                a2 = (a1.0 + r(&mut rng, 1, 400), a1.1 + r(&mut rng, -400, 400));
+                b1 = if rng.chance(1, 2) { a1 } else { a2 };
+                b2 = (b1.0 + r(&mut rng, -300, 300), b1.1 + r(&mut rng, -300, 300));
+            }
+            4 => {
+                // an end point of b on the LINE of a, beyond a
+                a1 = (r(&mut rng, -300, 300), r(&mut rng, -300, 300));
+                let v = (r(&mut rng, 1, 100), r(&mut rng, -100, 100));
+                a2 = (a1.0 + v.0, a1.1 + v.1);
+                let m = r(&mut rng, 1, 3);
+                b1 = if rng.chance(1, 2) { (a2.0 + m * v.0, a2.1 + m * v.1) } else { (a1.0 - m * v.0, a1.1 - m * v.1) };
+                b2 = (b1.0 + r(&mut rng, -300, 300), b1.1 + r(&mut rng, -300, 300));
+            }
+            5 | 6 => {
+                // general crossing through a lattice point of a's interior region (or a near miss)
+                a1 = (r(&mut rng, -900, 900), r(&mut rng, -900, 900));
+                a2 = (a1.0 + r(&mut rng, 10, 900), a1.1 + r(&mut rng, -900, 900));
+                let t = (rng.range(1, 9) as f64) / 10.0;
+                let p = ((a1.0 + t * (a2.0 - a1.0)).round(), (a1.1 + t * (a2.1 - a1.1)).round());
+                let w = (r(&mut rng, -400, 400), r(&mut rng, -400, 400));
+                b1 = (p.0 - w.0, p.1 - w.1);
+                b2 = (p.0 + w.0 * r(&mut rng, 1, 2), p.1 + w.1 * r(&mut rng, 1, 2));
+            }
+            _ => {
+                a1 = (r(&mut rng, -900, 900), r(&mut rng, -900, 900));
+                a2 = (r(&mut rng, -900, 900), r(&mut rng, -900, 900));
+                b1 = (r(&mut rng, -900, 900), r(&mut rng, -900, 900));
+                b2 = (r(&mut rng, -900, 900), r(&mut rng, -900, 900));
+            }
+        }
+        // a random lattice symmetry, then a power-of-two frame (both exact)
+        let t = rng.below(8) as u32;
+        let sy = |p: (f64, f64)| -> (f64, f64) {
+            match t {
+                0 => p,
+                1 => (-p.0, p.1),
+                2 => (p.0, -p.1),
+                3 => (-p.0, -p.1),
+                4 => (p.1, p.0),
+                5 => (-p.1, p.0),
+                6 => (p.1, -p.0),
+                _ => (-p.1, -p.0),
+            }
+        };
+        // (the step squares cross products of coordinate differences: beyond 2^+-200 that leaves the f64 range - the same frame bound as C08)
+        let e = if f32_ { rng.range(-60, 60) } else { rng.range(-200, 200) };
+        let sc = 2f64.powi(e as i32);
+        let tf = |p: (f64, f64)| -> (f64, f64) {
+            let q = sy(p);
+            (q.0 * sc, q.1 * sc)
+        };
+        a1 = tf(a1);
+        a2 = tf(a2);
+        b1 = tf(b1);
+        b2 = tf(b2);
+        let lex = |p: (f64, f64), q: (f64, f64)| p.0 < q.0 || (p.0 == q.0 && p.1 < q.1);
+        if a1 == a2 || b1 == b2 {
+            continue;
+        }
+        if !lex(a1, a2) {
+            std::mem::swap(&mut a1, &mut a2);
+        }
+        if !lex(b1, b2) {
+            std::mem::swap(&mut b1, &mut b2);
+        }
+        let mx = [a1, a2, b1, b2].iter().map(|p| p.0.abs().max(p.1.abs())).fold(0.0f64, f64::max).max(f64::MIN_POSITIVE);
+        let mexp = mx.log2().floor() as i32 + 1;
+        let sa = rng.chance(1, 2);
+        let swap = rng.chance(1, 2);
+        let c = |p: (f64, f64)| Coord { x: F::from_f64(p.0), y: F::from_f64(p.1) };
+        let mk = |p: (f64, f64), q: (f64, f64), subj: bool, cid: u32| {
+            let r = SweepEvent::new_rc(cid, c(q), false, Weak::new(), subj, true);
+            let l = SweepEvent::new_rc(cid, c(p), true, Rc::downgrade(&r), subj, true);
+            r.set_other_event(&l);
+            (l, r)
+        };
+        let (la, ra) = mk(a1, a2, sa, 1);
+        let (lb, rb) = mk(b1, b2, !sa, 2);
+        let mut q: BinaryHeap<Rc<SweepEvent<F>>> = BinaryHeap::new();
+        let res = std::panic::catch_unwind(std::panic::AssertUnwindSafe(|| if swap { possible_intersection(&lb, &la, &mut q) } else { possible_intersection(&la, &lb, &mut q) }));
+        let code: i64 = res.map(|c| c as i64).unwrap_or(-1);
+        let hx = |v: F| format!("\"{:016x}\"", v.to_f64().to_bits());
+        let pt = |e: &Rc<SweepEvent<F>>| format!("[{},{}]", hx(e.point.x), hx(e.point.y));
+        let alive: Vec<Rc<SweepEvent<F>>> = q.into_sorted_vec();     // the new events are owned by the queue only: keep them alive while the links are read
+        let pushed: Vec<String> = alive.iter().map(|e| format!("[{},{},{}]", e.contour_id, hx(e.point.x), hx(e.point.y))).collect();
+        let linked = [&la, &ra, &lb, &rb].iter().all(|e| e.get_other_event().map(|o| o.get_other_event().map(|oo| Rc::ptr_eq(&oo, e)).unwrap_or(false)).unwrap_or(false));
+        let end = |l: &Rc<SweepEvent<F>>| l.get_other_event().map(|o| pt(&o)).unwrap_or_else(|| "[]".into());
+        println!(
+            "{{\"id\":{},\"mode\":{},\"F\":\"{}\",\"swap\":{},\"mexp\":{},\"a\":[{},{}],\"b\":[{},{}],\"code\":{},\"pushed\":[{}],\"aend\":{},\"bend\":{},\"linked\":{}}}",
+            id, mode, F::NAME, swap, mexp, pt(&la), pt(&ra), pt(&lb), pt(&rb), code, pushed.join(","), end(&la), end(&lb), linked
+        );
+        drop(alive);
+    }
+}
